@@ -52,6 +52,7 @@
  ],
  'ghost_calls': ['C19_OFF'],
  'trusted': ['strchr on the constant string " \\r\\n\\t": cbmc library model (the loop over the 5-byte literal is unwound by constant propagation)'],
+ 'fallback': 'ghost-free',
  'witness': {'unwind': 12},
 } @*/
 #define C19_SPLIT_PROVER
@@ -81,7 +82,38 @@ void harness(void)
     g_aj = j < nslots ? argv[j] : 0;
     g_sk = g_ek = g_sk1 = g_stop = g_last_e = g_cur_s = g_base = 0;
 
+#ifdef WITNESS_MODE
+    char orig[8];
+    for (size_t i = 0; i <= L && i < 8; i++) orig[i] = data[i];
+#endif
+
     int argc = argvc_internal_split(data, argv, argcmax);
+
+#ifdef WITNESS_MODE
+    /* direct reference tokeniser over the (small, concrete) string: no ghost state */
+    {
+        char expect[8];
+        size_t start[8];
+        int rc = 0;
+        size_t pos = 0;
+        for (size_t i = 0; i <= L && i < 8; i++) expect[i] = orig[i];
+        while (1) {
+            while (orig[pos] != 0 && C19_WS(orig[pos])) pos++;
+            if (orig[pos] == 0 || rc >= argcmax) break;
+            if (rc < 8) start[rc] = pos;
+            rc++;
+            while (orig[pos] != 0 && !C19_WS(orig[pos])) pos++;
+            if (orig[pos] == 0) break;
+            expect[pos++] = 0;
+        }
+        __CPROVER_assert(argc == rc, "split: argc of the reference tokeniser (direct reference)");
+        for (int i = 0; i < rc && i < argc && i < 8; i++)
+            __CPROVER_assert(argv[i] == data + start[i], "split: argv[i] = start of the i-th maximal non-blank run (direct reference)");
+        for (size_t i = 0; i <= L && i < 8; i++)
+            __CPROVER_assert(data[i] == expect[i], "split: terminators exactly over the blanks that end a token (direct reference)");
+    }
+#endif
+#if !VC_FALLBACK
 
     char cur_q = q <= L ? data[q] : 0;
     C19_TOK_CHECKS(argc, argcmax, cur_q, C19_WS, C19_NUL);
@@ -99,9 +131,12 @@ void harness(void)
     }
     __CPROVER_assert(!(q <= L && q >= g_stop) || cur_q == g_vq, "split: nothing is written at or behind the stop position");
     __CPROVER_assert(!(q <= L) || cur_q == g_vq || (cur_q == 0 && C19_WS(g_vq)), "split: terminators are written only over blanks");
+#endif /* !VC_FALLBACK */
     /* the contract the shell dispatcher units use instead of the splitter (contracts/c19_shell_contracts.h) */
     g_sp_k = k;
     g_sp_vk = (argc > 0 && k < (size_t)argc) ? argv[k] : 0;
+#ifndef REPLAY /* object sizes are not available natively */
     __CPROVER_assert(C19_SPLIT_POST(argc, data, argv, argcmax), "split: contract clause C19_SPLIT_POST (argc in range, data still a string, argv[k] point into data)");
+#endif
     CANARY("argvc_internal_split end reachable");
 }
